@@ -93,7 +93,7 @@ def check_tables(rep, repo, rule='C16.R8'):
     # ---- R8 tables ------------------------------------------------------------------------------
     tup = repo.method('Options_parser', '_get_optimisation_tuples')
     it = Interp(repo)
-    _, rv = it.run(tup, {'args': S('args')})
+    _, rv = it.run(tup, {[p_ for p_ in tup.params if p_ != 'self'][0]: S('args')})
     rows = []
     if rv[0] == 'list':
         for el in rv[1]:
@@ -282,7 +282,7 @@ def check_helper(rep, repo, helper, N, r1='C16.R1', r3='C16.R3', r6='C16.R6'):
     isinstance(arguments, list)), count as a counter or as len(<present criteria>)."""
     it = Interp(repo)
     try:
-        effs, rv = it.run(helper, {'opts': S('opts')})
+        effs, rv = it.run(helper, {[p_ for p_ in helper.params if p_ != 'self'][0]: S('opts')})
     except Unknown as u:
         rep.inconclusive(r1, helper.where, 'ordering helper is inside the interpreted fragment', got=str(u))
         return
